@@ -88,6 +88,9 @@ HARNESSES = {
     "c1": ("ccube", 3, [[], []], [0, 1], ["count", "sum"]),
     "c2": ("ccube", 3, [[2]], [2], ["mean2"]),
     "c6": ("ccube", 2, [[2, 3]], [0], ["count"]),
+    # 8 sub-cubes: with one worker the pool's chunks hold two tasks each (chunk size = ceil(n / (4 * workers)))
+    "c8": ("ccube", 2, [[2, 2], [2]], [0, 1], ["count", "sum"]),
+    "x8": ("xcube", 2, [[2, 2], [2]], None, ["count", "sum"]),
     "x1": ("xcube", 3, [[]], None, ["sum", "stddev"]),
     "x6": ("xcube", 2, [[3], [2]], None, ["count", "mean2_w"]),
 }
